@@ -359,6 +359,26 @@ def mk_routing(shape, lens):
     return Routing(shape, lens)
 
 
+# spellings of tags that differ in case, separators and word segmentation (longer than the symbolic bound reaches)
+TAG_TOKENS = ["DataSources", "data_sources", "datasources", "DATASOURCES", "data-sources", "Data Sources", "dataSources", "DATA_SOURCES", "ApiKeys", "APIKEYS", "api_keys", "O_AUTH", "OAUTH"]
+
+
+class RoutingTokens(Routing):
+    """Routing with both tags solver-chosen from TAG_TOKENS (every ordered pair)."""
+
+    def __init__(self, shape):
+        Routing.__init__(self, shape, (1,) * sum(shape))
+        self.name = "routing_tokens/ops=%s" % "+".join(map(str, shape))
+        self.bounds = {"tags_per_operation": list(shape), "tags": "every tuple over %r" % (TAG_TOKENS,)}
+
+    def make_inputs(self, e):
+        return {"tag%d" % i: TAG_TOKENS[e.choose(len(TAG_TOKENS), "tok%d" % i)] for i in range(len(self.lens))}
+
+
+def mk_routing_tokens(shape):
+    return RoutingTokens(shape)
+
+
 class ClientNames(Obligation):
     """Method names are unique inside every written tag client, whatever tag (first or not) puts two operations together."""
 
@@ -523,7 +543,7 @@ def mk_methods(n):
 
 # ------------------------------------------------------------------ run
 def specs(tier):
-    out = [(MOD, "mk_methods", (1,)), (MOD, "mk_status", (True,)), (MOD, "mk_status", (False,)), (MOD, "mk_status", (True, True)), (MOD, "mk_status", (False, True))]
+    out = [(MOD, "mk_methods", (1,)), (MOD, "mk_routing_tokens", ((1, 1),)), (MOD, "mk_routing_tokens", ((2,),)), (MOD, "mk_status", (True,)), (MOD, "mk_status", (False,)), (MOD, "mk_status", (True, True)), (MOD, "mk_status", (False, True))]
     q = tier == "quick"
     for shape in ClientNames.TAGSETS:
         k = len(ClientNames.TAGSETS[shape])
@@ -568,6 +588,8 @@ def replay(path):
     if parts[0] == "names":
         lens = [len(v["inputs"][k]) for k in sorted(v["inputs"])]
         ob = Names(parts[1], parts[2], lens)
+    elif parts[0] == "routing_tokens":
+        ob = RoutingTokens(tuple(int(x) for x in parts[1].split("=")[1].split("+")))
     elif parts[0] == "routing":
         shape = tuple(int(x) for x in parts[1].split("=")[1].split("+"))
         lens = [len(v["inputs"][k]) for k in sorted(v["inputs"])]
